@@ -192,6 +192,18 @@ def parse_export(out_json):
     return res
 
 
+def describe(c):
+    d = c.get("description", "?")
+    loc = c.get("location") or {}
+    f, ln = loc.get("file"), loc.get("line")
+    if "placeholder message" in d and f and ln and os.path.exists(f):
+        try:
+            d = open(f).read().split("\n")[int(ln) - 1].strip()
+        except Exception:
+            pass
+    return d
+
+
 def classify(ob, r):
     """-> ('discharged'|'refuted'|'undecided', reason, failing_checks)"""
     if r is None:
@@ -210,7 +222,7 @@ def classify(ob, r):
                 return "undecided", "vacuity guard: cover not satisfied: %s" % "; ".join(c.get("description", "?") for c in bad), bad
         return "discharged", "", []
     if real:
-        return "refuted", "; ".join(sorted(set(c.get("description", "?") for c in real)))[:600], real
+        return "refuted", "; ".join(sorted(set(describe(c) for c in real)))[:900], real
     if unsupported:
         return "undecided", "unsupported construct: " + unsupported[0].get("description", ""), []
     if unwind:
@@ -246,9 +258,10 @@ def replay_refuted(ws, vcopy, ob, flags, logdir, reason, failing):
                 hsrc = p
         if hsrc:
             text = open(hsrc).read()
-            test_src = "\n".join(re.findall(r"/// Test generated for harness.*?\n}\n", text, flags=re.S))
+            hfn = ob["harness"].split("::")[-1]
+            test_src = "\n".join(t for t in re.findall(r"/// Test generated for harness.*?\n}\n", text, flags=re.S) if ("`%s`" % ob["harness"]) in t or ("_%s_" % hfn) in t)
         env = dict(os.environ, CARGO_NET_OFFLINE="true", CARGO_TERM_COLOR="never", RUST_BACKTRACE="0")
-        for t in tests[:3]:
+        for t in tests[:6]:
             pc = ["cargo", "kani", "playback", "-Z", "concrete-playback", "-p", ob["crate"], "--", t]
             try:
                 p = subprocess.run(pc, cwd=ws, env=env, stdout=subprocess.PIPE, stderr=subprocess.STDOUT, timeout=1800)
@@ -358,18 +371,24 @@ def main():
         for (crate, fg, jc), gobs in groups.items():
             flags = FLAG_GROUPS[fg]
             tmo = max(o.get("timeout", 600) for o in gobs)
-            mem = max(o.get("mem_gb", 4) for o in gobs)
+            mem = max(o.get("mem_gb", 3) for o in gobs)
             jobs = max(1, min(a.jobs, len(gobs), int(56 // mem)))
             out_json = os.path.join(logdir, "%s.%s.%s.json" % (crate, fg, jc))
             logf = os.path.join(logdir, "%s.%s.%s.log" % (crate, fg, jc))
             log("[%s] kani: crate=%s flags=%s harnesses=%d jobs=%d timeout=%ds" % (prop, crate, fg, len(gobs), jobs, tmo))
-            rc, wall, cmd = run_kani(ws, crate, [o["harness"] for o in gobs], flags, jobs, tmo, out_json, logf, mem_gb=mem)
+            rc, wall, cmd = run_kani(ws, crate, [o["harness"] for o in gobs], flags, jobs, tmo, out_json, logf, mem_gb=max(16, 2 * mem))
             parsed = parse_export(out_json)
             tools = parsed.pop("__tools__", tools) if parsed else tools
             if not parsed:
-                tail = "\n".join(open(logf).read().split("\n")[-40:])
-                errs = [l for l in open(logf).read().split("\n") if l.startswith("error")]
-                log(tail)
+                lines = open(logf).read().split("\n")
+                errs = [l for l in lines if l.startswith("error")]
+                shown = 0
+                for i, l in enumerate(lines):
+                    if l.startswith("error") and shown < 8:
+                        log("\n".join(lines[i:i + 14]))
+                        shown += 1
+                if not errs:
+                    log("\n".join(lines[-30:]))
                 for o in gobs:
                     results.append(dict(ob=o, verdict="undecided", reason="woven copy did not compile or Kani crashed: %s" % "; ".join(errs[:3]), r=None, cmd=cmd))
                 continue
@@ -385,7 +404,7 @@ def main():
             st = res["r"]["cbmc_stats"] if res["r"] else {}
             log("  %-34s %-10s checks=%s symex=%.1fs solver=%.1fs %s" % (
                 o["name"], v, res["r"]["checks_total"] if res["r"] else "-",
-                st.get("runtime_symex_s", 0), st.get("runtime_decision_procedure_s", 0), res["reason"][:160]))
+                st.get("runtime_symex_s") or 0, st.get("runtime_decision_procedure_s") or 0, res["reason"][:160]))
             if expect == "refuted":
                 # negated twin / known-finding witness: must be refuted
                 if v == "refuted":
@@ -467,8 +486,8 @@ def write_evidence(prop, tier, seed, results, wall, weave_stats, tools, errors, 
         else:
             n_guard += 1
             n_guard_ok += ok
-        symex += st.get("runtime_symex_s", 0)
-        solver += st.get("runtime_decision_procedure_s", 0)
+        symex += st.get("runtime_symex_s") or 0
+        solver += st.get("runtime_decision_procedure_s") or 0
         for f in o.get("functions", []):
             funcs.add(f)
         obl.append({
